@@ -184,7 +184,7 @@ func aggregateE1(rep *Reporter, prop string, cases []*e1Case, res *e1Result, bou
 
 // for these properties a supported signature that cannot be generated or
 // compiled is itself a violation (the statement quantifies over every signature)
-var failuresAreViolations = map[string]bool{"C15": true, "C16": true, "C18": true}
+var failuresAreViolations = map[string]bool{"C01": true, "C15": true, "C16": true, "C18": true}
 
 // failKey lets a property key its generation/compile failures by input class
 var failKey = map[string]func(f e1Failure) string{}
